@@ -77,7 +77,12 @@ func (p *pool) add(b *roaring.Bitmap, m *model.Set, tainted bool, parents ...*me
 }
 
 func (p *pool) pick(t *rapid.T, label string) *member {
-	return p.ms[rapid.IntRange(0, len(p.ms)-1).Draw(t, label)]
+	x := p.ms[rapid.IntRange(0, len(p.ms)-1).Draw(t, label)]
+	if x.m.IsEmpty() && len(p.ms) > 1 {
+		// one more try: operations on empty members teach little
+		x = p.ms[rapid.IntRange(0, len(p.ms)-1).Draw(t, label+".retry")]
+	}
+	return x
 }
 
 func (p *pool) pickList(t *rapid.T, label string, min int) []*member {
@@ -124,6 +129,37 @@ func (p *pool) sharedKeyValue(t *rapid.T, x *member) (uint32, bool) {
 		return uint32(v), true
 	}
 	return uint32(base + gen.Low(t, "low")), true
+}
+
+// pickChunk prefers (member, key) pairs whose chunk is currently a run container with
+// several runs (that is where representation maintenance can go wrong); falls back to any chunk.
+func (p *pool) pickChunk(t *rapid.T) (*member, uint64, bool) {
+	type mk struct {
+		x *member
+		k uint16
+	}
+	var runs, all []mk
+	for _, x := range p.ms {
+		ch := x.b.VerifChunks()
+		if len(ch) > 64 {
+			ch = ch[:64]
+		}
+		for _, c := range ch {
+			all = append(all, mk{x, c.Key})
+			if c.Kind == 3 && c.Runs >= 4 {
+				runs = append(runs, mk{x, c.Key})
+			}
+		}
+	}
+	if len(all) == 0 {
+		return nil, 0, false
+	}
+	if len(runs) > 0 && rapid.IntRange(0, 3).Draw(t, "preferRuns") != 0 {
+		c := runs[rapid.IntRange(0, len(runs)-1).Draw(t, "runchunk")]
+		return c.x, uint64(c.k), true
+	}
+	c := all[rapid.IntRange(0, len(all)-1).Draw(t, "chunk")]
+	return c.x, uint64(c.k), true
 }
 
 func (p *pool) newMember(t *rapid.T) {
@@ -323,6 +359,88 @@ func (p *pool) rules(t *rapid.T) map[string]func(*rapid.T) {
 				x.m.AddValues32(vals)
 			}
 		},
+		"trimRuns": func(t *rapid.T) {
+			// the same micro-edit applied to every run of one chunk: trim each run to its
+			// first `keep` values by point removals (never splits a run)
+			x, k, ok := p.pickChunk(t)
+			if !ok {
+				t.Skip("no chunk")
+			}
+			w := x.m.Window(k<<16, k<<16+65535)
+			keep := uint64(rapid.IntRange(1, 2).Draw(t, "keep"))
+			budget := 4000
+			p.log("#%d.trimRuns(key=%d keep=%d via Remove)", x.id, k, keep)
+			for _, iv := range w.Intervals() {
+				for v := iv.Hi; v >= iv.Lo+keep && budget > 0; v-- {
+					x.b.Remove(uint32(v))
+					x.m.Remove(v)
+					budget--
+				}
+			}
+		},
+		"andRange": func(t *rapid.T) {
+			// intersection with one interval (a single-run operand) placed inside a chunk of x
+			x, k, ok := p.pickChunk(t)
+			if !ok {
+				t.Skip("no chunk")
+			}
+			w := x.m.Window(k<<16, k<<16+65535)
+			ivs := w.Intervals()
+			if len(ivs) == 0 {
+				t.Skip("chunk vanished")
+			}
+			// start right after one of the chunk's intervals, or at an edge value
+			lo := k<<16 + gen.Low(t, "lo")
+			if rapid.Bool().Draw(t, "afterInterval") {
+				lo = ivs[rapid.IntRange(0, len(ivs)-1).Draw(t, "iv")].Hi + 1
+			}
+			hi := k<<16 + 65535 + uint64(rapid.SampledFrom([]int{0, 1, 65536}).Draw(t, "over"))
+			if rapid.Bool().Draw(t, "short") {
+				hi = lo + uint64(rapid.IntRange(0, 30000).Draw(t, "len"))
+			}
+			if hi > model.Max32 {
+				hi = model.Max32
+			}
+			if lo > hi {
+				lo = hi
+			}
+			mask := roaring.New()
+			mask.AddRange(lo, hi+1)
+			if rapid.Bool().Draw(t, "inplace") {
+				p.log("#%d.And(range[%d,%d])", x.id, lo, hi)
+				x.b.And(mask)
+				x.m = x.m.Window(lo, hi)
+			} else {
+				nm := p.add(roaring.And(x.b, mask), x.m.Window(lo, hi), false, x)
+				p.log("#%d=And(#%d,range[%d,%d])", nm.id, x.id, lo, hi)
+			}
+		},
+		"comb": func(t *rapid.T) {
+			// combine one chunk with a comb (every s-th value over a window): splits runs
+			x, k, ok := p.pickChunk(t)
+			if !ok {
+				t.Skip("no chunk")
+			}
+			step := uint64(rapid.IntRange(2, 9).Draw(t, "step"))
+			lo := k<<16 + gen.Low(t, "lo")
+			n := rapid.IntRange(1, 6000).Draw(t, "teeth")
+			vals := make([]uint32, 0, n)
+			for i, v := 0, lo; i < n && v <= k<<16+65535; i, v = i+1, v+step {
+				vals = append(vals, uint32(v))
+			}
+			comb := roaring.BitmapOf(vals...)
+			cm := model.FromValues32(vals)
+			op := rapid.SampledFrom([]int{0, 2, 3}).Draw(t, "op")
+			if rapid.Bool().Draw(t, "inplace") {
+				p.log("#%d.%s(comb lo=%d step=%d n=%d)", x.id, opNames[op], lo, step, len(vals))
+				nm := modelOp(op, x.m, cm)
+				inplaceOp(op, x.b, comb)
+				x.m = nm
+			} else {
+				nm := p.add(staticOp(op, x.b, comb), modelOp(op, x.m, cm), false, x)
+				p.log("#%d=%s(#%d,comb lo=%d step=%d n=%d)", nm.id, opNames[op], x.id, lo, step, len(vals))
+			}
+		},
 		"SetCopyOnWrite": func(t *rapid.T) {
 			x := p.pick(t, "x")
 			if x.tainted {
@@ -517,9 +635,7 @@ func runPool(t *rapid.T, mode poolMode, prop string) {
 		// C09/C14 quantify over histories from the empty bitmap
 		nm := p.add(roaring.New(), model.New(), false)
 		p.log("#%d=New()", nm.id)
-		if rapid.Bool().Draw(t, "second") {
-			p.newMember(t)
-		}
+		p.newMember(t)
 	}
 	p.invariant(t)
 	t.Repeat(p.rules(t))
